@@ -62,6 +62,7 @@ Core-only.
 -/
 import PvModel.Util
 import PvModel.Coins
+import PvModel.DenomRegex
 
 namespace PvModel.Vowner
 open PvModel PvModel.Ledger
@@ -115,6 +116,7 @@ inductive Err where
   | same       -- "already has the proposed value owner"
   | status     -- marker Withdraw: "… from a marker that is not in Active status"
   | perm       -- exchange CancelOrder: "does not have permission to cancel order"
+  | unsupported -- a request whose outcome is decided by rules outside this model (never produced for a generated op)
   deriving DecidableEq, Repr
 
 def Err.toString : Err → String
@@ -122,7 +124,7 @@ def Err.toString : Err → String
   | .sig => "err:sig" | .roles => "err:roles" | .contract => "err:contract" | .blocked => "err:blocked"
   | .withdraw => "err:withdraw" | .deposit => "err:deposit" | .funds => "err:funds"
   | .notfound => "err:notfound" | .dup => "err:dup" | .novo => "err:novo" | .same => "err:same"
-  | .status => "err:status" | .perm => "err:perm"
+  | .status => "err:status" | .perm => "err:perm" | .unsupported => "err:unsupported"
 
 /-- an authz grant; `count = 0` is a `GenericAuthorization`, `count = n+1` a
 `CountAuthorization` with `n+1` uses left -/
@@ -734,17 +736,31 @@ def markerTransfer (_s : State) (admin frm to : Addr) (id : ScopeId) : Except Er
   if admin = "" || frm = "" || to = "" || !isScopeDenom id then .error .invalid
   else .error .notfound
 
+/-- the text of the bank denom of scope `id`'s token: `MetadataAddress.Denom()` = `"nft/"` followed
+by the bech32 text of the scope's address.  Scope ids are symbolic in this model (`s1`, `s2`, …;
+the harness maps each to a real scope address); the id stands for that bech32 text.  Everything
+proved about the denom text (PvProofs/C09Denom.lean) holds for EVERY string after `nft/`, so it
+does not matter which text the id stands for. -/
+def scopeDenomText (id : ScopeId) : String := DenomRegex.scopeDenom id
+
 /-- marker `msgServer.AddFinalizeActivateMarker` / `msgServer.AddMarker` (x/marker/keeper/msg_server.go:480
 and :55) sent by an ordinary account (not the governance authority) for a marker whose denom is the
 denom of a scope token: the first thing both handlers do is `ValidateUnrestictedDenom`
-(x/marker/keeper/params.go:55), which matches the WHOLE denom against the unrestricted-denom
-expression `[a-zA-Z][a-zA-Z0-9\-\.]{2,83}`; `nft/scope1…` has a `/`, so the request is refused
-whatever its supply, marker type, access list and forced-transfer flag are (a forced-transfer flag
-on a marker that is not restricted is refused by `ValidateBasic` already).  Hence no marker ever
-exists on a scope denom, which is what `markerTransfer` and the "only the metadata module mints
-scope denoms" assumption rest on. -/
-def markerAdd (_s : State) (_signer : Addr) (_id : ScopeId) (_supply : Nat) (_restricted _forced : Bool) :
-    Except Err State := .error .invalid
+(x/marker/keeper/params.go:53), which matches the WHOLE denom against the unrestricted-denom
+expression `[a-zA-Z][a-zA-Z0-9\-\.]{2,83}` (`DenomRegex.unrestrictedDenomOk`).  The decision is
+taken from that match on the denom text: when it fails — and `nft/scope1…` has a `/`, so it always
+does (`PvProofs.C09Denom.scopeDenom_refused`) — the request is refused whatever its supply, marker
+type, access list and forced-transfer flag are (a forced-transfer flag on a marker that is not
+restricted is refused by `ValidateBasic` already).  A denom that passes would be an ordinary denom:
+the marker module's own rules decide then, they are not part of this model (`unsupported`; never
+reached).  Hence no marker ever exists on a scope denom, which is what `markerTransfer` and the
+"only the metadata module mints scope denoms" assumption rest on.  The governance authority as
+sender skips the validation (msg_server.go:64-73) and is outside the model. -/
+def markerAdd (_s : State) (_signer : Addr) (id : ScopeId) (_supply : Nat) (_restricted _forced : Bool) :
+    Except Err State :=
+  if DenomRegex.unrestrictedDenomOk (scopeDenomText id) then
+    .error .unsupported  -- a marker on an ordinary denom: the marker module's own rules, not part of this model
+  else .error .invalid
 
 /-! ## x/exchange: an ask order whose assets are a scope token
 
